@@ -3,6 +3,7 @@
 Part 1: abstract values.  (numpy facts encoded here are listed in engine/numpy_axioms.md.)
 """
 import ast
+import re
 from dataclasses import dataclass, replace
 
 from .report import AnalysisError
@@ -510,11 +511,54 @@ class Interp(object):
                             new = replace(x, rng=(scal_id(b), hi) if which == "lo" else (lo, scal_id(b)))
                             self.rebind(call.func.value, x, new, fr)
 
-    def refine_nomask(self, t, want, fr):
-        """`getmask(y) is nomask` known true on this branch: y has no missing cell, so every array is (vacuously) missing wherever
-        y is - y's coverage tokens are added to every masked array of the frame"""
+    def refine_nomask(self, t, want, fr, depth=0):
+        """`getmask(y) is nomask` / `not is_masked(y)` known true on this branch: y has no missing cell, so every array is
+        (vacuously) missing wherever y is - y's coverage tokens are added to every masked array of the frame"""
         if isinstance(t, ast.UnaryOp) and isinstance(t.op, ast.Not):
-            return self.refine_nomask(t.operand, not want, fr)
+            return self.refine_nomask(t.operand, not want, fr, depth)
+        if isinstance(t, ast.BoolOp):
+            if (isinstance(t.op, ast.And) and want) or (isinstance(t.op, ast.Or) and not want):
+                for v in t.values:
+                    self.refine_nomask(v, want, fr, depth)
+            return
+        if isinstance(t, ast.Call) and isinstance(t.func, ast.Name) and t.func.id == "bool" and len(t.args) == 1:
+            return self.refine_nomask(t.args[0], want, fr, depth)
+        if isinstance(t, ast.Name) and depth < 3 and fr.func is not None and getattr(fr.func, "node", None) is not None:
+            defs = [n.value for n in ast.walk(fr.func.node) if isinstance(n, ast.Assign) and len(n.targets) == 1 and isinstance(n.targets[0], ast.Name) and n.targets[0].id == t.id]
+            if len(defs) == 1:
+                return self.refine_nomask(defs[0], want, fr, depth + 1)
+            return
+        if isinstance(t, ast.Call) and isinstance(t.func, ast.Name) and depth < 3 and not t.keywords and all(isinstance(a_, ast.Name) for a_ in t.args):
+            # a package helper whose body is one `return <condition>`: the condition with the arguments put in
+            r_ = self.idx.resolve(fr.module, t.func, fr.func)
+            if r_ is not None and r_[0] == "func":
+                hf = r_[1]
+                body = [st for st in hf.node.body if not (isinstance(st, ast.Expr) and isinstance(st.value, ast.Constant))]
+                body = [st for st in body if not (isinstance(st, ast.Assign) and len(st.targets) == 1 and isinstance(st.targets[0], ast.Name))] if len(body) > 1 else body
+                assigns = {st.targets[0].id: st.value for st in hf.node.body if isinstance(st, ast.Assign) and len(st.targets) == 1 and isinstance(st.targets[0], ast.Name)}
+                params = [a_.arg for a_ in hf.node.args.args]
+                if len(body) == 1 and isinstance(body[0], ast.Return) and body[0].value is not None and len(params) == len(t.args):
+                    import copy as _copy
+                    m_ = {p_: a_.id for p_, a_ in zip(params, t.args)}
+
+                    class _S(ast.NodeTransformer):
+                        def visit_Name(self, x):
+                            if x.id in m_:
+                                return ast.copy_location(ast.Name(id=m_[x.id], ctx=x.ctx), x)
+                            return x
+
+                    cond = _S().visit(_copy.deepcopy(body[0].value))
+                    return self.refine_nomask(cond, want, fr, depth + 1)
+        if isinstance(t, ast.Call) and not want and isinstance(t.func, (ast.Name, ast.Attribute)) and (self.q(t.func, fr) or "") in ("numpy.ma.is_masked",) and len(t.args) == 1:
+            try:
+                y = self.ev(t.args[0], fr)
+            except Unsupported:
+                return
+            if isinstance(y, Arr) and y.kind == "masked" and y.M:
+                for k, v in list(fr.env.items()):
+                    if isinstance(v, Arr) and v.kind == "masked":
+                        fr.env[k] = replace(v, M=v.M | y.M)
+            return
         if not (isinstance(t, ast.Compare) and len(t.ops) == 1 and isinstance(t.ops[0], (ast.Is, ast.IsNot))):
             return
         l, r = t.left, t.comparators[0]
@@ -1623,7 +1667,14 @@ class ArrayInterp(Interp):
             dt = a.dt
         shape = a.shape
         if isinstance(b, Arr) and b.shape != a.shape:
-            shape = "unknown"
+            pair = {a.shape, b.shape}
+            if pair == {"stacked", "layercol"}:
+                shape = "stacked"  # one number per layer, broadcast over the cells of that layer (every rank)
+            elif pair == {"stacked", "layercol1"} or pair == {"stacked", "layervec"}:
+                shape = "rankdep"
+                self.finding("shape", node, "`%s` broadcasts a per-layer vector against the stack by position: it lines up with the layer axis only for data of one particular rank (A10)" % _src(node), fr)
+            else:
+                shape = "unknown"
         isbool = a.isbool and isinstance(op, (ast.BitOr, ast.BitAnd, ast.BitXor))
         ung = a.unguarded | getattr(b, "unguarded", E)
         if isinstance(op, (ast.Div, ast.FloorDiv, ast.Mod)):
@@ -1958,6 +2009,53 @@ class ArrayInterp(Interp):
         scope = "all" if base.shape == "same" and not base.sel else "subset"
         return Scal(D=base.D, Pg=pg, dt=dt, masked_const_possible=base.kind == "masked", sym="stat:%s(%s)" % (meth, scope) if base.D else None)
 
+    def reshape_shape(self, base, e, fr):
+        """abstract shape after `base.reshape(args)` for the position-preserving forms (A28), else None"""
+        args = e.args[0].elts if len(e.args) == 1 and isinstance(e.args[0], (ast.Tuple, ast.List)) else e.args
+        txt = [_src(a).replace(" ", "") for a in args]
+        whole = _src(e.args[0]).replace(" ", "") if len(e.args) == 1 else None
+
+        def is_shape_of_input(a):
+            try:
+                v = self.ev(a, fr)
+            except Unsupported:
+                return False
+            return isinstance(v, Lst) and v.what == "shape" and v.srcs and v.srcs[0] == "same"
+
+        def is_len_of_inputs(a):
+            try:
+                v = self.ev(a, fr)
+            except Unsupported:
+                return False
+            return isinstance(v, Scal) and bool(v.sym) and v.sym.startswith("len(") and v.sym.endswith(":all)")
+
+        def is_size_of_input(a):
+            if isinstance(a, ast.Attribute) and a.attr == "size":
+                try:
+                    v = self.ev(a.value, fr)
+                except Unsupported:
+                    return False
+                return isinstance(v, Arr) and v.shape == "same"
+            return False
+
+        if base.shape == "stacked" and len(args) == 2 and is_len_of_inputs(args[0]) and (is_size_of_input(args[1]) or txt[1] == "-1"):
+            return "stackedflat"  # (layers, all cells of a layer in storage order)
+        if base.shape == "stackedflat" and len(e.args) == 1 and isinstance(e.args[0], ast.BinOp):
+            return None
+        if base.shape == "raveled" and len(e.args) == 1 and is_shape_of_input(e.args[0]):
+            return "same"
+        if base.shape == "same" and len(args) == 1 and txt[0] == "-1":
+            return "raveled"
+        if base.shape == "layervec" and whole is not None:
+            m = re.fullmatch(r"\(-1,\)\+\(1,\)\*\((\w+)\.ndim-1\)", whole)
+            if m:
+                v = fr.env.get(m.group(1))
+                if isinstance(v, Arr) and v.shape == "stacked":
+                    return "layercol"  # (layers, 1, ..., 1) with as many ones as the data has axes: broadcasts along the layer axis for every rank
+            if whole in ("(-1,1)", "-1,1"):
+                return "layercol1"
+        return None
+
     def call_arr_method(self, info, e, fr):
         base, meth, basenode = info
         A, K = self.eval_args(e, fr)
@@ -2017,6 +2115,13 @@ class ArrayInterp(Interp):
             if base.shape == "same":
                 self.finding("equivariance", e, "transpose rearranges cells: %s" % _src(e), fr)
             return replace(base, shape="unknown", alias=base.alias)
+        if meth == "reshape" and e.args:
+            got = self.reshape_shape(base, e, fr)
+            if got is not None:
+                return replace(base, shape=got, alias=base.alias | self.S(e))
+        if meth in ("ravel", "flatten") and base.shape == "same" and not e.args:
+            # every cell, in storage order: undone exactly by reshape(<the original shape>)  (A28)
+            return replace(base, shape="raveled", alias=(base.alias | self.S(e)) if meth == "ravel" else self.S(e))
         if meth in POSITIONAL_METHODS:
             if base.shape in ("same", "stacked"):
                 self.finding("equivariance", e, "%s() is position dependent on data axes: %s" % (meth, _src(e)), fr)
@@ -2118,6 +2223,10 @@ class ArrayInterp(Interp):
             if isinstance(a0, Lst) and a0.what == "arrs":
                 el = self.part_elem(a0)
                 return replace(el, kind="plain" if qn != "numpy.asanyarray" else el.kind, M=E, Pc=el.Pc | (el.D if el.kind == "masked" else E), shape="stacked", alias=S())
+            if isinstance(a0, Lst) and a0.what == "nums" and a0.sliced is None:
+                # one number per input (the weights): a vector along the layer axis
+                el = a0.elem if isinstance(a0.elem, Scal) else Scal()
+                return Arr(kind="plain", alias=S(), shape="layervec", dt=IF_, D=el.D, Pg=el.Pg)
             return Arr(kind="plain", alias=S(), shape="unknown", dt=IF_)
         if qn in ("numpy.ma.empty", "numpy.ma.zeros", "numpy.ma.ones", "numpy.ma.masked_all", "numpy.full", "numpy.empty", "numpy.zeros", "numpy.ones",
                   "numpy.empty_like", "numpy.zeros_like", "numpy.ones_like", "numpy.full_like", "numpy.ma.empty_like", "numpy.ma.zeros_like", "numpy.ma.ones_like"):
@@ -2223,7 +2332,7 @@ class ArrayInterp(Interp):
             return Other("bool")
         if qn in ("numpy.abs", "numpy.absolute", "numpy.ma.abs", "numpy.negative", "numpy.sqrt", "numpy.ma.sqrt", "numpy.exp", "numpy.ma.exp", "numpy.log", "numpy.ma.log",
                   "numpy.rint", "numpy.round", "numpy.around", "numpy.floor", "numpy.ceil", "numpy.trunc", "numpy.sign", "numpy.square", "numpy.nan_to_num", "numpy.ma.fix_invalid",
-                  "numpy.isnan", "numpy.isfinite", "numpy.isinf", "numpy.tanh", "numpy.float64", "numpy.float32", "numpy.int64", "numpy.int32", "numpy.uint", "numpy.ma.masked_invalid") \
+                  "numpy.isnan", "numpy.isfinite", "numpy.isinf", "numpy.signbit", "numpy.isneginf", "numpy.isposinf", "numpy.tanh", "numpy.float64", "numpy.float32", "numpy.int64", "numpy.int32", "numpy.uint", "numpy.ma.masked_invalid") \
                 or (qn.startswith(("numpy.ma.", "numpy.")) and qn.count(".") <= 2 and qn.split(".")[-1] in UNARY_UFUNCS):
             out = K.get("out")
             if isinstance(out, Arr):
@@ -2232,7 +2341,7 @@ class ArrayInterp(Interp):
                 dt = a0.dt
                 if qn.split(".")[-1] in ("sqrt", "exp", "log", "tanh", "float64", "float32") or qn.split(".")[-1] in FLOAT_UFUNCS:
                     dt = F_
-                if qn.split(".")[-1] in ("isnan", "isfinite", "isinf"):
+                if qn.split(".")[-1] in ("isnan", "isfinite", "isinf", "signbit", "isneginf", "isposinf"):
                     return replace(a0, alias=S(), isbool=True, dt=B_, rng=(None, None), maskof=E, dataof=E)
                 return replace(a0, alias=out.alias if isinstance(out, Arr) else S(), dt=dt, rng=(None, None), maskof=E, dataof=E if not isinstance(out, Arr) else out.dataof, cmp=None)
             if isinstance(a0, Scal):
@@ -2369,6 +2478,15 @@ class ArrayInterp(Interp):
             arrs = [x for x in A if isinstance(x, Arr)]
             if not arrs:
                 return Scal()
+            if qn in ("numpy.dot", "numpy.ma.dot") and len(A) == 2 and isinstance(A[1], Arr) and A[1].shape == "stackedflat" and (isinstance(A[0], Arr) and A[0].shape == "layervec" or isinstance(A[0], Lst) and A[0].what == "nums"):
+                # (layers,) . (layers, cells): contracts the layer axis whatever the rank of the data was (A28)
+                st = A[1]
+                strict = K.get("strict")
+                keeps = qn == "numpy.ma.dot" and isinstance(strict, Other) and strict.info is True
+                w = A[0]
+                wD = w.D if isinstance(w, Arr) else (w.elem.D if isinstance(w.elem, Scal) else E)
+                M = (st.M | (frozenset(t for t in st.D if is_input_token(t)) if st.layermask else E)) if (keeps and st.kind == "masked") else E
+                return Arr(kind="masked" if ".ma." in qn else "plain", alias=S(), M=M, D=st.D | wD, Pc=st.Pc | (E if keeps else st.D), shape="raveled", dt=promote(st.dt, IF_))
             # a contraction pairs the last axis of one operand with the second-to-last of the other: which axis that is
             # depends on the rank of the data (A25); numpy.ma.dot also treats masked cells as 0 unless strict=True
             self.finding("equivariance", e, "%s contracts over an axis chosen by position: for data of rank >= 2 it mixes cells of one layer instead of combining layers (or fails), and masked cells enter as 0" % qn, fr)
@@ -2394,6 +2512,10 @@ class ArrayInterp(Interp):
                     return replace(a0, alias=S(), sorted0=True)
                 if qn in ("numpy.partition",) and a0.shape == "stacked" and isinstance(K.get("axis", A[2] if len(A) > 2 else None), Scal) and K.get("axis", A[2] if len(A) > 2 else None).const == 0:
                     # a partial sort along the layer axis: only the pivot position is in place, the layers are NOT sorted
+                    kth = A[1] if len(A) > 1 else K.get("kth")
+                    if not isinstance(kth, Scal):
+                        # several pivots (an array of positions): which layers end up in their sorted place depends on that array
+                        self.unsupported("numpy.partition with an array of pivot positions (which layers are in sorted position is not modelled)", e, fr)
                     return replace(a0, alias=S(), sorted0=False)
                 if a0.shape in ("same", "stacked", "rankdep"):
                     self.finding("equivariance", e, "%s is position dependent on data axes: %s" % (qn, _src(e)), fr)
@@ -2431,6 +2553,10 @@ class ArrayInterp(Interp):
                 el = a0.elem if isinstance(a0.elem, Scal) else Scal()
                 srcs = ",".join(map(str, a0.srcs)) + ("[%s:%s]" % a0.sliced if a0.sliced else "")
                 return Scal(D=el.D, Pg=el.Pg, sym="%s(%s)" % (short, srcs) if a0.srcs else None)
+            if isinstance(a0, Arr) and short == "sum" and a0.shape == "stacked" and len(A) == 1:
+                # 0 + layer0 + layer1 + ...: the layers added cell by cell; a cell missing in any layer is missing in the sum
+                M = a0.M | (frozenset(t for t in a0.D if is_input_token(t)) if (a0.kind == "masked" and a0.layermask) else E)
+                return replace(a0, shape="same", alias=S(), sel=None, sorted0=False, layermask=False, M=M if a0.kind == "masked" else E, rng=(None, None), maskof=E, dataof=E)
             if isinstance(a0, Arr):
                 self.finding("equivariance", e, "python %s() over an array iterates its first axis" % short, fr)
                 return replace(a0, shape="unknown", alias=S())
